@@ -517,6 +517,10 @@ namespace photon
             PHOTON_VERIF_SP(PHOTON_VERIF_SP_ATOMIC, this);
             // lock
             foreground_locked.store(true, std::memory_order_release);
+            // Dekker-style hand-shake with background_try_lock(): the store above must be
+            // globally visible before background_locked is read (a release store followed
+            // by an acquire load of another variable may be reordered, also on x86)
+            std::atomic_thread_fence(std::memory_order_seq_cst);
 
             // wait if (unlikely) background locked
             wait_while(background_locked);
